@@ -58,8 +58,9 @@ m('c13_off_by_one', 'C13', S, "        events_to_remove_count = total_events - s
 m('c14_swallow_full', 'C14', S, "                raise  # could also block indefinitely until queue has space, but dont drop silently or delete events", "                return event  # could also block indefinitely until queue has space", 'QueueFull swallowed: silent drop')
 m('c14_history_before_put', 'C14', S, "                self.event_queue.put_nowait(event)\n            except asyncio.QueueFull:", "                self.event_history[event.event_id] = event\n                self.event_queue.put_nowait(event)\n            except asyncio.QueueFull:", 'history insert before the queue accepts')
 # ---- C15
-m('c15_no_recheck', 'C15', S, "            while not self._on_idle.is_set() or self.events_started or self.events_pending:", "            while False:", 'no re-check loop')
-m('c15_skip_task_done', 'C15', MO, "                                    bus.event_queue.task_done()\n", "                                    pass\n", 'inline processing skips task_done')
+m('c15_no_recheck', 'C15', S, "            while not self._on_idle.is_set() or self.events_started or self.events_pending or self.event_queue.qsize():", "            while False:", 'no re-check loop')
+m('c15_skip_task_done', 'C15', MO, "                                        bus.event_queue.task_done()\n", "                                        pass\n", 'inline processing skips task_done')
+m('c15_revert_f25', 'C15', MO, "                                    try:\n                                        await bus.process_event(event)\n                                    finally:", "                                    await bus.process_event(event)\n                                    if True:", 'revert F25: task_done skipped when the inline processing is cancelled')
 # ---- C16
 m('c16_revert_f7', 'C16', S, "        except asyncio.CancelledError:\n            # The run loop task itself is being cancelled (e.g. by asyncio.run() at exit): never swallow that\n            get_next_queued_event.cancel()\n            raise\n        except (RuntimeError, QueueShutDown):", "        except (asyncio.CancelledError, RuntimeError, QueueShutDown):", 'revert F7')
 m('c16_revert_f15', 'C16', MO, " or not bus._is_running:  # pyright: ignore[reportPrivateUsage]", " or False:", 'revert F15')
